@@ -5,7 +5,7 @@ import pickle
 import struct
 import tempfile
 
-from common import Prop, bits, close, unbits, import_mtfit, main
+from common import Prop, bits, close, unbits, import_mtfit, main, Failure
 
 POL = {'u': 1, '?': 0, 'd': -1, '+': 1, 'c': 1, '-': -1, '.': 0, 'p': 1, 'n': -1}
 
@@ -495,6 +495,81 @@ class C17(Prop):
         if k == 'binary':
             return 'binary/%drec/%s' % (len(case['recs']), 'conv' if any(r['converted'] for r in case['recs']) else 'plain')
         return '%s/%dev' % (k, len(case['events']))
+
+    # ------------------------------------------------------------------ the result files of a real inversion run
+    def _front_end(self, seed, ntypes):
+        """Inversion.forward() writes its results in the pickle and in the hyp (.mt binary) format: both files must carry the same tensors,
+        probabilities, log-probabilities, counts and converted parameters, and the log-probabilities must be those of the tensors stored with them."""
+        import contextlib
+        import io as _io
+        import shutil
+        np, io = self.np, self.io
+        from MTfit.inversion import Inversion
+        from MTfit.probability import probability as pr
+        from MTfit import inversion as invm
+        rs = np.random.RandomState(seed)
+        n = 6
+        st = {'Name': ['S%d' % i for i in range(n)], 'Azimuth': np.matrix(rs.uniform(0, 360, n)).T, 'TakeOffAngle': np.matrix(rs.uniform(20, 160, n)).T}
+        data = {'PPolarity': {'Stations': st, 'Measured': np.matrix(np.sign(rs.randn(n))).T, 'Error': np.matrix(0.3 * np.ones((n, 1)))}, 'UID': 'c17fe'}
+        cwd = os.getcwd()
+        d = tempfile.mkdtemp(prefix='c17fe_')
+        os.chdir(d)
+        o_seed = np.random.seed
+        res = {}
+        try:
+            for fmt in ('pickle', 'hyp'):
+                o_seed(seed)
+                np.random.seed = lambda *a, **k: None         # the samplers reseed from the clock: keep both runs on the same stream
+                try:
+                    with contextlib.redirect_stdout(_io.StringIO()), contextlib.redirect_stderr(_io.StringIO()):
+                        I = Inversion(data, algorithm='iterate', parallel=False, max_samples=400, phy_mem=0.001, convert=True, output_format=fmt)
+                        I.forward()
+                finally:
+                    np.random.seed = o_seed
+            res['files'] = sorted(os.listdir(d))
+            if 'c17feMT.out' in res['files'] and 'c17feMT.mt' in res['files']:
+                with open('c17feMT.out', 'rb') as fh:
+                    ev = pickle.load(fh)['Events']
+                recs = io.read_binary_output('c17feMT.mt')
+                res['n_records'] = len(recs)
+                b = recs[0]
+                M1, M2 = np.asarray(ev['MTSpace'], dtype=float), np.asarray(b['moment_tensor_space'], dtype=float)
+                res['shapes'] = [list(M1.shape), list(M2.shape)]
+                if M1.shape == M2.shape:
+                    res['mt_dev'] = float(np.abs(M1 - M2).max())
+                    res['p_dev'] = float(np.abs(np.asarray(ev['Probability'], dtype=float).flatten() - np.asarray(b['probability'], dtype=float).flatten()).max())
+                    res['lnp_dev'] = float(np.abs(np.asarray(ev['ln_pdf'], dtype=float).flatten() - np.asarray(b['ln_pdf'], dtype=float).flatten()).max())
+                    res['conv_dev'] = float(max(np.abs(np.asarray(ev[k], dtype=float).flatten() - np.asarray(b[k], dtype=float).flatten()).max()
+                                                for k in ('g', 'd', 'k', 'h', 's', 'u', 'v', 'S1', 'D1', 'R1', 'S2', 'D2', 'R2')))
+                    res['counts'] = [int(ev['NSamples']), int(b['total_number_samples'])]
+                    # the stored log-probabilities are those of the stored tensors (differences: the files hold normalised values)
+                    a_pol, err_pol, ipp = invm.polarity_matrix(data)
+                    ref = np.asarray(pr.polarity_ln_pdf(a_pol, M2.copy(), err_pol, ipp, _use_c=False), dtype=float).flatten()
+                    got = np.asarray(b['ln_pdf'], dtype=float).flatten()
+                    res['lnp_vs_forward_dev'] = float(np.abs((got - got[0]) - (ref - ref[0])).max())
+        finally:
+            os.chdir(cwd)
+            shutil.rmtree(d, ignore_errors=True)
+        return res
+
+    def extra(self, rng, tier):
+        runs, fails = [], []
+        for seed in ([31] if tier == 'quick' else [31, 32, 33]):
+            r = self._front_end(seed, 1)
+            runs.append(r)
+            what = None
+            if 'c17feMT.out' not in r['files'] or 'c17feMT.mt' not in r['files']:
+                what = 'an inversion run with pickle and hyp output left the files %r: no result file / no binary .mt file was written' % (r['files'],)
+            elif r['shapes'][0] != r['shapes'][1] or r.get('n_records') != 1:
+                what = 'the pickle result holds tensors of shape %r, the binary .mt file %r (%r records)' % (r['shapes'][0], r['shapes'][1], r.get('n_records'))
+            elif max(r['mt_dev'], r['p_dev'], r['lnp_dev'], r['conv_dev']) > 1e-12 or r['counts'][0] != r['counts'][1]:
+                what = ('pickle and binary result files of the same run differ: tensors %r, probabilities %r, log-probabilities %r, converted parameters %r, sample counts %r'
+                        % (r['mt_dev'], r['p_dev'], r['lnp_dev'], r['conv_dev'], r['counts']))
+            elif r['lnp_vs_forward_dev'] > 1e-7:
+                what = 'log-probabilities in the binary result file are not those of the tensors stored with them (off by up to %r)' % r['lnp_vs_forward_dev']
+            if what:
+                fails.append(Failure('property', {'kind': 'front-end-output', 'seed': seed}, what, key='front-end-output'))
+        return {'front_end_output_runs': runs}, fails
 
 
 if __name__ == '__main__':
